@@ -191,6 +191,14 @@ func c20Mappings(level int) []c20Mapping {
 		}
 		return c
 	}})
+	// an id that is mapped to a package but to no output file is, by the tool's documented rule, not emitted at all; two other ids
+	// of the same package have files of their own (the third must not turn up in either of them)
+	ms = append(ms, c20Mapping{"package-only-for-third", func(ids []string) genlab.Cfg {
+		c := base()
+		c.Mappings = []genlab.Mapping{{ID: ids[0], Package: "example.com/m/p", Output: "p/a.go"}, {ID: ids[1], Package: "example.com/m/p", Output: "p/b.go"},
+			{ID: ids[2], Package: "example.com/m/p"}, {ID: ids[3], Package: "example.com/m/q", Output: "q/d.go"}}
+		return c
+	}})
 	if level >= 1 {
 		ms = append(ms,
 			c20Mapping{"one-file", func(ids []string) genlab.Cfg { c := base(); c.Output = "all/one.go"; return c }},
@@ -277,6 +285,12 @@ func (s obsState) declKeys() map[string]string {
 	return m
 }
 
+// c20MappingFits: a reference into a schema that is mapped to "no output" cannot build (that is what the rule means), so the
+// mapping with such an id is combined with the universes without references only.
+func c20MappingFits(u c20Universe, mp c20Mapping) bool {
+	return mp.name != "package-only-for-third" || strings.HasPrefix(u.name, "none/")
+}
+
 func c20(ctx *Ctx) {
 	unis := c20Universes(ctx.Level)
 	maps := c20Mappings(ctx.Level)
@@ -294,6 +308,9 @@ func c20(ctx *Ctx) {
 			}
 			if strings.HasSuffix(u.name, "/third-without-id") && mp.name != "defaults-stdout" && mp.name != "one-file" && mp.name != "own-files+root-type+unmapped" && mp.name != "output-only-mappings" {
 				continue // only the mappings that do not name the third document
+			}
+			if !c20MappingFits(u, mp) {
+				continue
 			}
 			if strings.HasPrefix(u.name, "same-basename") && mp.name != "two-packages" && mp.name != "each-own-package" {
 				// x/common.json and y/common.json both yield the type name Common: they must live in different packages
